@@ -10,7 +10,7 @@ RULE = (
     "empty / list attribute values and custom separators; distinct = hash of the configuration; trivial = single row"
 )
 ASSUMPTIONS = ["decoder labels are unique single-line strings that do not start with a style segment", "custom styles use three distinct strings of equal width"]
-GATES = ["mon.C09.rows", "mon.C09.decoder", "mon.C09.text", "mon.C09.repr", "C09.depth_ge_4", "C09.last_under_nonlast", "C09.childiter_changes_last", "C09.multiline", "C09.empty_value", "C09.maxlevel_cuts", "C09.abandoned_iteration", "C09.nested_use", "C09.after_mutation", "C09.long_lived_rendertree"]
+GATES = ["mon.C09.rows", "mon.C09.decoder", "mon.C09.text", "mon.C09.repr", "C09.depth_ge_4", "C09.last_under_nonlast", "C09.childiter_changes_last", "C09.multiline", "C09.empty_value", "C09.maxlevel_cuts", "C09.abandoned_iteration", "C09.nested_use", "C09.after_mutation", "C09.long_lived_rendertree", "mon.C09.raising_childiter", "C09.maxlevel_int_subclass"]
 
 
 def plan(tier, seed, jobs):
@@ -115,6 +115,11 @@ def check_config(ctx, lib, nodes, idmap, par, ch, s, st, ci, ml, case, names):
         kw["childiter"] = cif
     if ml is not None:
         kw["maxlevel"] = ml
+        if (s + len(stname) + len(ciname)) % 3 == 0:
+            from .c06 import int_like
+
+            kw["maxlevel"] = int_like(ml)  # the same number as a bool / an instance of an int subclass
+            ctx.count("C09.maxlevel_int_subclass")
     cfg = dict(case, start=s, style=stname, childiter=ciname, maxlevel=ml)
     exp = R.render_rows(ch, s, strs, cil, ml)
     ctx.count("mon.C09.rows")
@@ -204,6 +209,37 @@ def check_config(ctx, lib, nodes, idmap, par, ch, s, st, ci, ml, case, names):
         ctx.violation("C09/str", "str-text", cfg, expected=exp_str[:600], observed=str(rt)[:600])
         return False
     return True
+
+
+class ChildIterFailed(RuntimeError):
+    """Raised by a lazy user childiter (a RuntimeError subclass, as RecursionError is)."""
+
+
+def check_raising_childiter(ctx, lib, nodes, idmap, ch, s, case):
+    """A lazy childiter that raises while a later sibling is fetched: the error must come out of the iteration
+    (no row list that silently lacks the remaining siblings)."""
+    wide = [x for x in R.preorder_iter(ch, s) if len(ch[x]) >= 2]
+    if not wide:
+        return True
+    victim = ch[wide[-1]][1]
+
+    def lazy(children):
+        for c in children:
+            if idmap[id(c)] == victim:
+                raise ChildIterFailed("cannot fetch node %d" % victim)
+            yield c
+
+    ctx.count("mon.C09.raising_childiter")
+    try:
+        rows = list(lib.RenderTree(nodes[s], childiter=lazy))
+        out = "returned %d rows" % len(rows)
+    except ChildIterFailed:
+        return True
+    except Exception as e:  # noqa: B902
+        out = "raised %s" % type(e).__name__
+    ctx.violation("C09/rows/childiter-exception-swallowed", "user-exception-propagates", dict(case, start=s, raising_childiter_at=victim),
+                  expected="ChildIterFailed propagates out of the iteration", observed=out)
+    return False
 
 
 class ML:
@@ -327,6 +363,8 @@ def run(ctx):
             full = n <= 6
             for s in range(n):
                 h = R.height(ch, s)
+                ctx.case((par, s, "raising-childiter"))
+                check_raising_childiter(ctx, lib, nodes, idmap, ch, s, case)
                 for si, st in enumerate(sts):
                     for cj, ci in enumerate(cis):
                         if not full and (si + cj + s + idx) % 4:
@@ -474,6 +512,11 @@ def _replay_static(ctx, wit):
     lib = getlib()
     c = wit["case"]
     ctx.case(("replay",))
+    if "raising_childiter_at" in c:
+        par = c["par"]
+        nodes = TR.build(par, c["family"], ["n%02d" % i for i in range(len(par))])
+        check_raising_childiter(ctx, lib, nodes, {id(o): i for i, o in enumerate(nodes)}, gen.children_of(par), c["start"], c)
+        return
     if "text_seed" in c:
         seed, shard, r = c["text_seed"]
         check_text(ctx, lib, random.Random("%s/%s/%s/%s" % (seed, "C09", shard, "text/%d" % r)), c["text_seed"])
